@@ -4,6 +4,7 @@ import (
 	"context"
 	"fmt"
 	"strings"
+	"sync/atomic"
 	"time"
 
 	"google.golang.org/protobuf/types/known/wrapperspb"
@@ -28,6 +29,7 @@ type brunCase struct {
 }
 
 type brunObs struct {
+	Skipped  bool
 	Outs     []string
 	Drain    []string
 	Started  []string // tokens of the writes started, in order
@@ -51,8 +53,20 @@ func (c brunCase) key() string {
 	return fmt.Sprintf("%s/%v/%s", c.Target, c.Seed, strings.Join(c.Moves, ""))
 }
 
-func (c brunCase) runCode(model string) brunObs {
-	var obs brunObs
+// brunStuck counts, across the workers, the runs in which a write or a receive did not complete within
+// its bound; after a few of them the remaining cases are skipped (a broken tree must not stretch the run).
+var brunStuck atomic.Int64
+
+func (c brunCase) runCode(model string) (obs brunObs) {
+	if brunStuck.Load() > 4 {
+		obs.Skipped = true
+		return obs
+	}
+	defer func() {
+		if obs.Stuck != "" {
+			brunStuck.Add(1)
+		}
+	}()
 	ctx, cancel := context.WithCancel(context.Background())
 	defer cancel()
 	ropts := []resource.ReadOption{resource.WithBackpressure(true)}
@@ -312,6 +326,10 @@ func runBackpressure(f lib.Flags, res *lib.Result, drv *lib.Driver) {
 		parallelDo(hi-lo, func(j int) { obss[j] = cases[lo+j].runCode(ans[lo+j]) })
 		for j, obs := range obss {
 			c := cases[lo+j]
+			if obs.Skipped {
+				tie.Count("skipped after stuck runs")
+				continue
+			}
 			c.monitor(mon, obs)
 			code := obs.answer()
 			tie.Record(c.key(), len(obs.Started) >= 2, c, ans[lo+j], code)
@@ -320,7 +338,7 @@ func runBackpressure(f lib.Flags, res *lib.Result, drv *lib.Driver) {
 				slow++
 			}
 		}
-		if slow > 6 {
+		if slow > 6 || brunStuck.Load() > 4 {
 			tie.Fail(fmt.Errorf("aborted after %d cases in which a write or a receive did not complete within %s", slow, pipeWait))
 			break
 		}
